@@ -1,20 +1,40 @@
-// go2coq translates a small, loop-free, integer-only subset of Go functions into Gallina
-// definitions over Z with explicit wrap-around, so that selected pure cores of
-// pion/interceptor are re-derived FROM THE SOURCE on every run and the hand-written models
-// are proved equal to them (coq/Proofs/GeneratedEq.v).  Anything outside the subset is a
-// translation error (the check then reports the obligation as broken) - never a guess.
+// go2coq translates a small subset of Go functions into Gallina definitions over Z (sized integers
+// with explicit wrap-around), bool and list Z (slices / arrays of integers), so that selected pure
+// cores of pion/interceptor are re-derived FROM THE SOURCE on every run and the hand-written models
+// are proved equal to them (coq/Proofs/GeneratedEqCxx.v, one per property).  Anything outside the subset
+// is a translation error (the check then reports the obligation as broken) - never a guess.  The
+// subset is described precisely in design-notes/go2coq.md; in short:
 //
-// Subset: functions and methods whose bodies consist of :=, =, op=, ++/--, if/else, switch on
-// values, return; expressions over bool and sized integers with + - * comparisons, && || !,
-// conversions between integer types, named constants of the package, calls to other
-// translated functions, and reads/writes of fields of a pointer receiver (a method returns its
-// results followed by the new field values, in declaration order).
+//   - functions and methods whose bodies consist of :=, =, op=, ++/--, var, if/else (with init),
+//     switch on values and tagless switch (no fallthrough/break), return, counted for loops of three
+//     shapes (loop.go), calls of other translated functions of the same package, and
+//     Lock/Unlock/RLock/RUnlock (also deferred) on a sync.Mutex / sync.RWMutex, which are skipped
+//     (sequential semantics);
+//   - expressions over bool and sized integers: + - * / % & | ^ &^ << >> unary - ^ !, comparisons,
+//     && ||, conversions between integer types, constants, min/max, len, reads s[i] and prefixes
+//     s[:n] of slices and arrays of integers, make([]T, n), nil slices, append(s, x) assigned back
+//     to s, element assignment s[i] (op)= v;
+//   - a pointer receiver is a set of field paths: the function takes the fields it reads as
+//     parameters (declaration order) and returns its results followed by the new values of the
+//     fields it may assign (declaration order); struct-typed parameters (by value or by pointer)
+//     are read-only and flattened into the fields that are read; a struct result is returned
+//     field by field;
+//   - values of any other type (time.Time, float64, pointers ...) can only be copied; they are
+//     typed by an implicit Coq type variable T_<type>.
+//
+// Next to every definition g_f whose execution can panic (index out of range, division by zero,
+// negative shift count / length) a boolean g_f_safe is generated: where g_f_safe is true Go does
+// not panic and returns what g_f returns.  Not rendered: nil dereferences, overflow of int/int64
+// (64-bit signed arithmetic is unbounded Z), aliasing between distinct slice-typed inputs, and the
+// effect of element assignments on a caller's array when the slice is a parameter (such functions
+// cannot be called from translated code).
 package main
 
 import (
 	"flag"
 	"fmt"
 	"go/ast"
+	"go/build"
 	"go/constant"
 	"go/importer"
 	"go/parser"
@@ -31,20 +51,107 @@ type unit struct {
 	funcs []string // "Func" or "Type.Method"
 }
 
-type tr struct {
-	fset *token.FileSet
-	info *types.Info
-	pkg  *types.Package
-	recv string            // receiver identifier inside a method
-	flds []string          // receiver struct fields in order
-	pfx  string            // prefix for generated names
-	env  map[string]string // Go local name -> current Coq name
+// ---------------------------------------------------------------------------------------------
+// packages
+
+type pkgInfo struct {
+	dir   string
+	fset  *token.FileSet
+	info  *types.Info
+	pkg   *types.Package
+	name  string
+	decls map[string]*ast.FuncDecl
+	gens  map[string]*gen
+	out   *strings.Builder
 }
 
 func fail(pos token.Position, f string, a ...interface{}) {
 	fmt.Fprintf(os.Stderr, "go2coq: %s: %s\n", pos, fmt.Sprintf(f, a...))
 	os.Exit(1)
 }
+
+var (
+	sharedFset = token.NewFileSet()
+	sharedImp  types.Importer
+)
+
+// one importer (and one file set) for all packages: dependencies are type-checked once
+func theImporter(fset *token.FileSet) types.Importer {
+	if sharedImp == nil {
+		sharedImp = importer.ForCompiler(fset, "source", nil)
+	}
+
+	return sharedImp
+}
+
+func loadPkg(repo, dir string, out *strings.Builder) *pkgInfo {
+	fset := sharedFset
+	pkgs, err := parser.ParseDir(fset, filepath.Join(repo, dir), func(fi os.FileInfo) bool {
+		return !strings.HasSuffix(fi.Name(), "_test.go") && !strings.HasSuffix(fi.Name(), "_verif.go")
+	}, 0)
+	if err != nil {
+		fail(token.Position{Filename: dir}, "%v", err)
+	}
+	if len(pkgs) != 1 {
+		fail(token.Position{Filename: dir}, "expected one package, found %d", len(pkgs))
+	}
+	for _, p := range pkgs {
+		var names []string
+		for n := range p.Files {
+			names = append(names, n)
+		}
+		sort.Strings(names)
+		var files []*ast.File
+		for _, n := range names {
+			files = append(files, p.Files[n])
+		}
+		info := &types.Info{
+			Types:      map[ast.Expr]types.TypeAndValue{},
+			Defs:       map[*ast.Ident]types.Object{},
+			Uses:       map[*ast.Ident]types.Object{},
+			Selections: map[*ast.SelectorExpr]*types.Selection{},
+		}
+		var terrs []error
+		conf := types.Config{Importer: theImporter(fset), Error: func(e error) { terrs = append(terrs, e) }}
+		pkg, _ := conf.Check(dir, fset, files, info)
+		if len(terrs) > 0 {
+			// a partially typed package would make the translation a guess
+			fail(token.Position{Filename: dir}, "type errors: %v", terrs[0])
+		}
+		pi := &pkgInfo{dir: dir, fset: fset, info: info, pkg: pkg, name: p.Name, decls: map[string]*ast.FuncDecl{}, gens: map[string]*gen{}, out: out}
+		for _, f := range files {
+			for _, d := range f.Decls {
+				fd, ok := d.(*ast.FuncDecl)
+				if !ok || fd.Body == nil {
+					continue
+				}
+				name := fd.Name.Name
+				if fd.Recv != nil {
+					switch rt := fd.Recv.List[0].Type.(type) {
+					case *ast.StarExpr:
+						if id, ok := rt.X.(*ast.Ident); ok {
+							name = id.Name + "." + name
+						} else {
+							continue
+						}
+					case *ast.Ident:
+						name = rt.Name + "." + name
+					default:
+						continue
+					}
+				}
+				pi.decls[name] = fd
+			}
+		}
+
+		return pi
+	}
+
+	return nil
+}
+
+// ---------------------------------------------------------------------------------------------
+// types
 
 func bits(t types.Type) (int, bool, bool) { // width, signed, isInteger
 	b, ok := t.Underlying().(*types.Basic)
@@ -75,6 +182,8 @@ func bits(t types.Type) (int, bool, bool) { // width, signed, isInteger
 	return 0, false, false
 }
 
+var modulus = map[int]string{8: "256", 16: "65536", 32: "4294967296", 64: "18446744073709551616"}
+
 // wrap renders the reduction of an unbounded Z expression e to type t.
 // Signed 64-bit (int, int64) is left unbounded: overflow there is outside every property's range
 // and is stated as such in the trusted base.
@@ -83,7 +192,7 @@ func wrap(t types.Type, e string) string {
 	if !ok || w == 0 || (signed && w == 64) {
 		return e
 	}
-	mod := map[int]string{8: "256", 16: "65536", 32: "4294967296", 64: "18446744073709551616"}[w]
+	mod := modulus[w]
 	if !signed {
 		return "((" + e + ") mod " + mod + ")"
 	}
@@ -92,136 +201,857 @@ func wrap(t types.Type, e string) string {
 	return "(((" + e + ") + " + half + ") mod " + mod + " - " + half + ")"
 }
 
-func (t *tr) expr(e ast.Expr) string {
-	if tv, ok := t.info.Types[e]; ok && tv.Value != nil {
-		switch tv.Value.Kind() {
-		case constant.Int:
-			s := tv.Value.ExactString()
-			if strings.HasPrefix(s, "-") {
-				return "(" + s + ")"
-			}
+type kind int
 
-			return s
-		case constant.Bool:
-			return tv.Value.String()
+const (
+	kBool kind = iota
+	kInt
+	kList   // slice or array of integers: list Z
+	kStruct // struct or pointer to struct: a set of field paths (or opaque when used as a whole)
+	kOpaque // anything else: can only be copied
+)
+
+func isBool(t types.Type) bool {
+	b, ok := t.Underlying().(*types.Basic)
+
+	return ok && (b.Kind() == types.Bool || b.Kind() == types.UntypedBool)
+}
+
+func opaqueName(t types.Type) string {
+	s := types.TypeString(t, func(p *types.Package) string { return p.Name() })
+	var sb strings.Builder
+	sb.WriteString("T_")
+	for _, r := range s {
+		switch {
+		case r >= 'a' && r <= 'z', r >= 'A' && r <= 'Z', r >= '0' && r <= '9', r == '_':
+			sb.WriteRune(r)
+		case r == '*':
+			sb.WriteString("ptr_")
+		case r == '.':
+			sb.WriteRune('_')
+		case r == '[' || r == ']':
+			sb.WriteString("sl_")
+		default:
+			sb.WriteString("x_")
 		}
+	}
+
+	return sb.String()
+}
+
+func classify(t types.Type) kind {
+	if isBool(t) {
+		return kBool
+	}
+	if _, _, ok := bits(t); ok {
+		return kInt
+	}
+	switch u := t.Underlying().(type) {
+	case *types.Slice:
+		if _, _, ok := bits(u.Elem()); ok {
+			return kList
+		}
+	case *types.Array:
+		if _, _, ok := bits(u.Elem()); ok {
+			return kList
+		}
+	case *types.Struct:
+		return kStruct
+	case *types.Pointer:
+		if _, ok := u.Elem().Underlying().(*types.Struct); ok {
+			return kStruct
+		}
+	}
+
+	return kOpaque
+}
+
+func coqType(t types.Type) string {
+	switch classify(t) {
+	case kBool:
+		return "bool"
+	case kInt:
+		return "Z"
+	case kList:
+		return "(list Z)"
+	}
+
+	return opaqueName(t)
+}
+
+func structOf(t types.Type) *types.Struct {
+	switch u := t.Underlying().(type) {
+	case *types.Struct:
+		return u
+	case *types.Pointer:
+		if s, ok := u.Elem().Underlying().(*types.Struct); ok {
+			return s
+		}
+	}
+
+	return nil
+}
+
+func isPointer(t types.Type) bool {
+	_, ok := t.Underlying().(*types.Pointer)
+
+	return ok
+}
+
+func isMutex(t types.Type) bool {
+	if p, ok := t.Underlying().(*types.Pointer); ok {
+		t = p.Elem()
+	}
+	n, ok := t.(*types.Named)
+	if !ok || n.Obj().Pkg() == nil || n.Obj().Pkg().Path() != "sync" {
+		return false
+	}
+
+	return n.Obj().Name() == "Mutex" || n.Obj().Name() == "RWMutex"
+}
+
+// ---------------------------------------------------------------------------------------------
+// field paths
+
+type pathRef struct {
+	root   types.Object // receiver or parameter
+	path   string       // "a.b", "" for the root itself
+	idx    []int        // field indices from the root
+	typ    types.Type
+	viaPtr bool // crosses a pointer-typed field below the root
+}
+
+type pathKey struct {
+	root types.Object
+	path string
+}
+
+func (p *pathRef) key() pathKey { return pathKey{p.root, p.path} }
+
+func lessIdx(a, b []int) bool {
+	for i := 0; i < len(a) && i < len(b); i++ {
+		if a[i] != b[i] {
+			return a[i] < b[i]
+		}
+	}
+
+	return len(a) < len(b)
+}
+
+func sortPaths(m map[pathKey]*pathRef) []*pathRef {
+	var l []*pathRef
+	for _, p := range m {
+		l = append(l, p)
+	}
+	sort.Slice(l, func(i, j int) bool { return lessIdx(l[i].idx, l[j].idx) })
+
+	return l
+}
+
+// ---------------------------------------------------------------------------------------------
+// per-function result
+
+type genParam struct {
+	obj    types.Object
+	name   string     // Coq name (scalar / list / opaque parameter)
+	typ    types.Type // Go type
+	flat   []*pathRef // struct parameter flattened into the fields read (nil otherwise)
+	isFlat bool
+}
+
+type gen struct {
+	coqName   string
+	recvBasic *genParam  // value receiver of a basic type
+	recvIn    []*pathRef // fields of the receiver read before assigned (relative to the receiver)
+	recvOut   []*pathRef // fields of the receiver that may be assigned
+	params    []*genParam
+	nres      int
+	hasSafe   bool
+	busy      bool
+	mutParam  bool // writes through a slice parameter: cannot be called from translated code
+}
+
+// ---------------------------------------------------------------------------------------------
+// translation of one function
+
+type tr struct {
+	p    *pkgInfo
+	fd   *ast.FuncDecl
+	recv types.Object // struct receiver (nil if none or basic)
+
+	locals map[types.Object]string // current Coq name of a local / scalar parameter
+	paths  map[pathKey]string      // current Coq name of an assigned field path
+	fresh  int
+
+	// collected
+	inputs   map[pathKey]*pathRef // paths whose initial value is read
+	assigned map[pathKey]*pathRef // receiver paths assigned somewhere
+	selected map[types.Object]bool
+	whole    map[types.Object]bool
+	outs     []*pathRef // the function's outputs (from the first pass)
+
+	safe     bool     // render the no-panic condition instead of the value
+	conds    []string // side conditions of the expression being translated
+	anyConds bool
+
+	recvIsValue bool
+	condCount   int
+	mutatesParm bool       // assigns an element of a slice-typed parameter (an effect on the caller's array)
+	pendingOuts []*pathRef // where the assigned receiver fields of the call just rendered go
+}
+
+func (t *tr) pos(n ast.Node) token.Position { return t.p.fset.Position(n.Pos()) }
+
+var reserved = map[string]bool{"as": true, "at": true, "cofix": true, "else": true, "end": true, "exists": true, "exists2": true,
+	"fix": true, "for": true, "forall": true, "fun": true, "if": true, "IF": true, "in": true, "let": true, "match": true, "mod": true,
+	"Prop": true, "return": true, "Set": true, "then": true, "Type": true, "using": true, "where": true, "with": true, "SProp": true,
+	"by": true, "is": true, "nosimpl": true, "of": true}
+
+func coqIdent(s string) string {
+	if reserved[s] {
+		return s + "_p"
+	}
+
+	return s
+}
+
+func initialName(p *pathRef) string {
+	return p.root.Name() + "_" + strings.ReplaceAll(p.path, ".", "_")
+}
+
+func (t *tr) bind(goName string) string {
+	t.fresh++
+
+	return fmt.Sprintf("%s_%d", strings.ReplaceAll(goName, ".", "_"), t.fresh)
+}
+
+func (t *tr) addCond(c string) {
+	t.anyConds = true
+	t.condCount++
+	for _, o := range t.conds {
+		if o == c {
+			return
+		}
+	}
+	t.conds = append(t.conds, c)
+}
+
+// nonZeroCond: Go panics on division by zero (a constant divisor is checked by the compiler)
+func (t *tr) nonZeroCond(b string, e ast.Expr) {
+	if tv, ok := t.p.info.Types[e]; ok && tv.Value != nil {
+		if constant.Sign(tv.Value) == 0 {
+			fail(t.pos(e), "division by the constant zero")
+		}
+
+		return
+	}
+	t.addCond("(negb (" + b + " =? 0))")
+}
+
+// takeConds returns and clears the side conditions collected so far.
+func (t *tr) takeConds() []string {
+	c := t.conds
+	t.conds = nil
+
+	return c
+}
+
+func conj(cs []string) string {
+	if len(cs) == 0 {
+		return "true"
+	}
+	if len(cs) == 1 {
+		return cs[0]
+	}
+
+	return "(" + strings.Join(cs, " && ") + ")"
+}
+
+// guard wraps body (safe mode only) so that it is evaluated only when cs hold.
+func (t *tr) guard(cs []string, body string) string {
+	if !t.safe || len(cs) == 0 {
+		return body
+	}
+
+	return "(if " + conj(cs) + " then " + body + "\n  else false)"
+}
+
+// resolvePath: is e a field path below the receiver or below a struct-typed parameter?
+func (t *tr) resolvePath(e ast.Expr) (*pathRef, bool) {
+	switch x := e.(type) {
+	case *ast.ParenExpr:
+		return t.resolvePath(x.X)
+	case *ast.Ident:
+		obj := t.p.info.Uses[x]
+		v, ok := obj.(*types.Var)
+		if !ok || classify(v.Type()) != kStruct {
+			return nil, false
+		}
+		if obj == t.recv {
+			return &pathRef{root: obj, typ: v.Type()}, true
+		}
+		if _, isLocalScalar := t.locals[obj]; isLocalScalar {
+			return nil, false
+		}
+		for _, fl := range t.fd.Type.Params.List {
+			for _, n := range fl.Names {
+				if t.p.info.Defs[n] == obj {
+					return &pathRef{root: obj, typ: v.Type()}, true
+				}
+			}
+		}
+
+		return nil, false
+	case *ast.SelectorExpr:
+		sel := t.p.info.Selections[x]
+		if sel == nil || sel.Kind() != types.FieldVal {
+			return nil, false
+		}
+		base, ok := t.resolvePath(x.X)
+		if !ok {
+			return nil, false
+		}
+		if len(sel.Index()) != 1 {
+			fail(t.pos(x), "selection of a promoted (embedded) field is not supported")
+		}
+		p := &pathRef{root: base.root, idx: append(append([]int{}, base.idx...), sel.Index()[0]), typ: sel.Type(), viaPtr: base.viaPtr}
+		if base.path == "" {
+			p.path = x.Sel.Name
+		} else {
+			p.path = base.path + "." + x.Sel.Name
+			if isPointer(base.typ) {
+				p.viaPtr = true
+			}
+		}
+
+		return p, true
+	}
+
+	return nil, false
+}
+
+func (t *tr) readPath(p *pathRef, at ast.Node) string {
+	if p.path == "" { // the root itself, as a whole
+		if p.root == t.recv {
+			fail(t.pos(at), "the receiver is used as a whole")
+		}
+		t.whole[p.root] = true
+		if t.selected[p.root] {
+			fail(t.pos(at), "parameter %s is used both as a whole and by field", p.root.Name())
+		}
+
+		return coqIdent(p.root.Name())
+	}
+	t.selected[p.root] = true
+	if t.whole[p.root] {
+		fail(t.pos(at), "parameter %s is used both as a whole and by field", p.root.Name())
+	}
+	if n, ok := t.paths[p.key()]; ok {
+		return n
+	}
+	t.inputs[p.key()] = p
+
+	return initialName(p)
+}
+
+func (t *tr) constant(e ast.Expr) (string, bool) {
+	tv, ok := t.p.info.Types[e]
+	if !ok || tv.Value == nil {
+		return "", false
+	}
+	_, _, intTyped := bits(tv.Type)
+	switch tv.Value.Kind() {
+	case constant.Int:
+		if !intTyped { // e.g. a float64-typed constant with an integral value
+			return "", false
+		}
+		s := tv.Value.ExactString()
+		if strings.HasPrefix(s, "-") {
+			return "(" + s + ")", true
+		}
+
+		return s, true
+	case constant.Bool:
+		if !isBool(tv.Type) {
+			return "", false
+		}
+
+		return tv.Value.String(), true
+	case constant.Float:
+		if _, _, isInt := bits(tv.Type); isInt {
+			if iv := constant.ToInt(tv.Value); iv.Kind() == constant.Int {
+				s := iv.ExactString()
+				if strings.HasPrefix(s, "-") {
+					return "(" + s + ")", true
+				}
+
+				return s, true
+			}
+		}
+	}
+
+	return "", false
+}
+
+func (t *tr) typeOf(e ast.Expr) types.Type {
+	ty := t.p.info.TypeOf(e)
+	if ty == nil {
+		fail(t.pos(e), "untyped expression")
+	}
+
+	return ty
+}
+
+func (t *tr) intExpr(e ast.Expr) string {
+	if classify(t.typeOf(e)) != kInt {
+		fail(t.pos(e), "integer operand expected, found %s", t.typeOf(e))
+	}
+
+	return t.expr(e)
+}
+
+func (t *tr) boolExpr(e ast.Expr) string {
+	if classify(t.typeOf(e)) != kBool {
+		fail(t.pos(e), "boolean operand expected, found %s", t.typeOf(e))
+	}
+
+	return t.expr(e)
+}
+
+// shift renders x << n / x >> n of result type ty.
+func (t *tr) shift(op token.Token, ty types.Type, a string, n ast.Expr) string {
+	w, signed, _ := bits(ty)
+	if op == token.SHL && signed && w == 64 {
+		fail(t.pos(n), "<< on a signed 64-bit operand is not supported (overflow is not rendered)")
+	}
+	b := t.intExpr(n)
+	if tv, ok := t.p.info.Types[n]; ok && tv.Value != nil {
+		if constant.Sign(tv.Value) < 0 {
+			fail(t.pos(n), "negative shift count")
+		}
+	} else if _, nsigned, _ := bits(t.typeOf(n)); nsigned {
+		t.addCond("(0 <=? " + b + ")") // Go panics on a negative count
+	}
+	if op == token.SHL {
+		// (x * 2^n) reduced to the type: 0 once n reaches the width
+		return wrap(ty, "(Z.shiftl "+a+" "+b+")")
+	}
+
+	return "(Z.shiftr " + a + " " + b + ")"
+}
+
+func (t *tr) arith(op token.Token, ty types.Type, a, b string, divisor ast.Expr, at ast.Node) string {
+	_, signed, _ := bits(ty)
+	switch op {
+	case token.ADD, token.SUB, token.MUL:
+		return wrap(ty, "("+a+" "+op.String()+" "+b+")")
+	case token.QUO:
+		t.nonZeroCond(b, divisor)
+		if signed {
+			return wrap(ty, "(Z.quot "+a+" "+b+")")
+		}
+
+		return "(" + a + " / " + b + ")"
+	case token.REM:
+		t.nonZeroCond(b, divisor)
+		if signed {
+			return "(Z.rem " + a + " " + b + ")"
+		}
+
+		return "(" + a + " mod " + b + ")"
+	case token.AND:
+		return "(Z.land " + a + " " + b + ")"
+	case token.OR:
+		return "(Z.lor " + a + " " + b + ")"
+	case token.XOR:
+		return "(Z.lxor " + a + " " + b + ")"
+	case token.AND_NOT:
+		return "(Z.ldiff " + a + " " + b + ")"
+	}
+	fail(t.pos(at), "unsupported operator %s", op)
+
+	return ""
+}
+
+func (t *tr) expr(e ast.Expr) string {
+	if s, ok := t.constant(e); ok {
+		return s
 	}
 	switch x := e.(type) {
 	case *ast.ParenExpr:
 		return t.expr(x.X)
 	case *ast.Ident:
 		if x.Name == "true" || x.Name == "false" {
-			return x.Name
-		}
-		if n, ok := t.env[x.Name]; ok {
-			return n
-		}
-		fail(t.fset.Position(x.Pos()), "unknown identifier %s", x.Name)
-	case *ast.SelectorExpr:
-		if id, ok := x.X.(*ast.Ident); ok && id.Name == t.recv {
-			if n, ok := t.env[t.recv+"."+x.Sel.Name]; ok {
-				return n
+			if _, ok := t.p.info.Uses[x].(*types.Const); ok {
+				return x.Name
 			}
 		}
-		fail(t.fset.Position(x.Pos()), "unsupported selector")
+		if _, isNil := t.p.info.Uses[x].(*types.Nil); isNil {
+			if classify(t.typeOf(x)) == kList {
+				if _, isSlice := t.typeOf(x).Underlying().(*types.Slice); isSlice {
+					return "nil" // the nil slice: length 0
+				}
+			}
+			fail(t.pos(x), "nil of type %s is not supported", t.typeOf(x))
+		}
+		obj := t.p.info.Uses[x]
+		if n, ok := t.locals[obj]; ok {
+			return n
+		}
+		if p, ok := t.resolvePath(x); ok {
+			return t.readPath(p, x)
+		}
+		fail(t.pos(x), "unknown identifier %s", x.Name)
+	case *ast.SelectorExpr:
+		if p, ok := t.resolvePath(x); ok {
+			return t.readPath(p, x)
+		}
+		fail(t.pos(x), "unsupported selector")
+	case *ast.IndexExpr:
+		if classify(t.typeOf(x.X)) != kList {
+			fail(t.pos(x), "index of a non-integer slice/array")
+		}
+		l := t.expr(x.X)
+		i := t.intExpr(x.Index)
+		t.boundsCond(l, i, x.Index)
+
+		return "(g_idx " + l + " " + i + ")"
+	case *ast.SliceExpr:
+		if x.Low != nil || x.High == nil || x.Slice3 || classify(t.typeOf(x.X)) != kList {
+			fail(t.pos(x), "only s[:n] on an integer slice is supported")
+		}
+		if _, isSlice := t.typeOf(x.X).Underlying().(*types.Slice); !isSlice {
+			fail(t.pos(x), "only s[:n] on an integer slice is supported")
+		}
+		l := t.expr(x.X)
+		h := t.intExpr(x.High)
+		// Go allows n up to cap(s); only n <= len(s) is rendered (sufficient for no panic)
+		c := "(" + h + " <=? g_len " + l + ")"
+		if tv, ok := t.p.info.Types[x.High]; ok && tv.Value != nil {
+			if constant.Sign(tv.Value) < 0 {
+				fail(t.pos(x), "negative slice bound")
+			}
+		} else if _, signed, _ := bits(t.typeOf(x.High)); signed {
+			c = "((0 <=? " + h + ") && " + c + ")"
+		}
+		t.addCond(c)
+
+		return "(g_take " + l + " " + h + ")"
 	case *ast.UnaryExpr:
 		switch x.Op {
 		case token.NOT:
-			return "(negb " + t.expr(x.X) + ")"
+			return "(negb " + t.boolExpr(x.X) + ")"
 		case token.SUB:
-			return wrap(t.info.TypeOf(e), "(- "+t.expr(x.X)+")")
+			return wrap(t.typeOf(e), "(- "+t.intExpr(x.X)+")")
+		case token.XOR:
+			return wrap(t.typeOf(e), "(Z.lnot "+t.intExpr(x.X)+")")
+		case token.ADD:
+			return t.intExpr(x.X)
 		}
 	case *ast.BinaryExpr:
-		a, b := t.expr(x.X), t.expr(x.Y)
 		switch x.Op {
-		case token.ADD, token.SUB, token.MUL:
-			return wrap(t.info.TypeOf(e), "("+a+" "+x.Op.String()+" "+b+")")
-		case token.LAND:
-			return "(" + a + " && " + b + ")"
-		case token.LOR:
+		case token.LAND, token.LOR:
+			a := t.boolExpr(x.X)
+			saved := t.takeConds()
+			b := t.boolExpr(x.Y)
+			cb := t.takeConds()
+			t.conds = saved
+			if len(cb) > 0 { // y is evaluated only when x does not decide
+				if x.Op == token.LAND {
+					t.conds = append(t.conds, "(negb "+a+" || "+conj(cb)+")")
+				} else {
+					t.conds = append(t.conds, "("+a+" || "+conj(cb)+")")
+				}
+			}
+			if x.Op == token.LAND {
+				return "(" + a + " && " + b + ")"
+			}
+
 			return "(" + a + " || " + b + ")"
-		case token.EQL:
-			if _, _, isInt := bits(t.info.TypeOf(x.X)); isInt {
-				return "(" + a + " =? " + b + ")"
+		case token.SHL, token.SHR:
+			return t.shift(x.Op, t.typeOf(e), t.intExpr(x.X), x.Y)
+		case token.ADD, token.SUB, token.MUL, token.QUO, token.REM, token.AND, token.OR, token.XOR, token.AND_NOT:
+			a := t.intExpr(x.X)
+			b := t.intExpr(x.Y)
+
+			return t.arith(x.Op, t.typeOf(e), a, b, x.Y, x)
+		case token.EQL, token.NEQ:
+			var r string
+			switch classify(t.typeOf(x.X)) {
+			case kInt:
+				r = "(" + t.intExpr(x.X) + " =? " + t.intExpr(x.Y) + ")"
+			case kBool:
+				r = "(Bool.eqb " + t.boolExpr(x.X) + " " + t.boolExpr(x.Y) + ")"
+			default:
+				fail(t.pos(x), "comparison of %s values is not supported", t.typeOf(x.X))
+			}
+			if x.Op == token.NEQ {
+				return "(negb " + r + ")"
 			}
 
-			return "(Bool.eqb " + a + " " + b + ")"
-		case token.NEQ:
-			if _, _, isInt := bits(t.info.TypeOf(x.X)); isInt {
-				return "(negb (" + a + " =? " + b + "))"
-			}
+			return r
+		case token.LSS, token.LEQ, token.GTR, token.GEQ:
+			a := t.intExpr(x.X)
+			b := t.intExpr(x.Y)
 
-			return "(negb (Bool.eqb " + a + " " + b + "))"
-		case token.LSS:
-			return "(" + a + " <? " + b + ")"
-		case token.LEQ:
-			return "(" + a + " <=? " + b + ")"
-		case token.GTR:
-			return "(" + a + " >? " + b + ")"
-		case token.GEQ:
-			return "(" + a + " >=? " + b + ")"
+			return "(" + a + " " + x.Op.String() + "? " + b + ")"
 		}
 	case *ast.CallExpr:
 		// conversion?
-		if tv, ok := t.info.Types[x.Fun]; ok && tv.IsType() {
-			if _, _, isInt := bits(tv.Type); isInt && len(x.Args) == 1 {
-				return wrap(tv.Type, t.expr(x.Args[0]))
-			}
-		}
-		if id, ok := x.Fun.(*ast.Ident); ok {
-			switch id.Name {
-			case "min", "max":
-				if len(x.Args) == 2 {
-					return "(Z." + id.Name + " " + t.expr(x.Args[0]) + " " + t.expr(x.Args[1]) + ")"
-				}
-			default:
-				args := make([]string, len(x.Args))
-				for i, a := range x.Args {
-					args[i] = t.expr(a)
+		if tv, ok := t.p.info.Types[x.Fun]; ok && tv.IsType() {
+			if w, signed, isInt := bits(tv.Type); isInt && len(x.Args) == 1 {
+				arg := t.intExpr(x.Args[0])
+				if sw, ssigned, _ := bits(t.typeOf(x.Args[0])); signed && w == 64 && !ssigned && sw == 64 {
+					// uint64 -> int/int64 is exact two's complement (arithmetic on int64 stays unbounded)
+					return "(((" + arg + ") + 9223372036854775808) mod 18446744073709551616 - 9223372036854775808)"
 				}
 
-				return "(" + t.pfx + id.Name + " " + strings.Join(args, " ") + ")"
+				return wrap(tv.Type, arg)
+			}
+			fail(t.pos(x), "unsupported conversion to %s", tv.Type)
+		}
+		if id, ok := x.Fun.(*ast.Ident); ok {
+			if _, isBuiltin := t.p.info.Uses[id].(*types.Builtin); isBuiltin {
+				switch id.Name {
+				case "min", "max":
+					if len(x.Args) == 2 {
+						return "(Z." + id.Name + " " + t.intExpr(x.Args[0]) + " " + t.intExpr(x.Args[1]) + ")"
+					}
+				case "len":
+					if len(x.Args) == 1 && classify(t.typeOf(x.Args[0])) == kList {
+						return "(g_len " + t.expr(x.Args[0]) + ")"
+					}
+				case "make":
+					if len(x.Args) == 2 && classify(t.typeOf(x)) == kList {
+						if _, isSlice := t.typeOf(x).Underlying().(*types.Slice); isSlice {
+							n := t.intExpr(x.Args[1])
+							if tv, ok := t.p.info.Types[x.Args[1]]; ok && tv.Value != nil {
+								if constant.Sign(tv.Value) < 0 {
+									fail(t.pos(x), "negative length")
+								}
+							} else if _, signed, _ := bits(t.typeOf(x.Args[1])); signed {
+								t.addCond("(0 <=? " + n + ")")
+							}
+
+							return "(g_zeros " + n + ")"
+						}
+					}
+				}
+				fail(t.pos(x), "unsupported use of builtin %s", id.Name)
 			}
 		}
+		g, args := t.call(x)
+		if g.nres != 1 || len(g.recvOut) != 0 {
+			fail(t.pos(x), "call of %s in an expression: one result and no assigned receiver field required", g.coqName)
+		}
+		if g.hasSafe {
+			t.addCond("(" + g.coqName + "_safe" + args + ")")
+		}
+
+		return "(" + g.coqName + args + ")"
 	}
-	fail(t.fset.Position(e.Pos()), "unsupported expression %T", e)
+	fail(t.pos(e), "unsupported expression %T", e)
 
 	return ""
 }
 
-// state returns the tuple of all mutable variables (locals in scope order + receiver fields).
-func (t *tr) vars() []string {
-	ks := make([]string, 0, len(t.env))
-	for k := range t.env {
-		ks = append(ks, k)
+func (t *tr) boundsCond(l, i string, idx ast.Expr) {
+	c := "(" + i + " <? g_len " + l + ")"
+	if tv, ok := t.p.info.Types[idx]; ok && tv.Value != nil {
+		if constant.Sign(tv.Value) < 0 {
+			fail(t.pos(idx), "negative index")
+		}
+	} else if _, signed, _ := bits(t.typeOf(idx)); signed {
+		c = "((0 <=? " + i + ") && " + c + ")"
 	}
-	sort.Strings(ks)
-
-	return ks
+	t.addCond(c)
 }
 
-var fresh int
+// call resolves a call of a translated function/method and renders its argument list
+// (receiver fields first, then the arguments), with a leading space.
+func (t *tr) call(x *ast.CallExpr) (*gen, string) {
+	var g *gen
+	var parts []string
+	t.pendingOuts = nil
+	switch f := x.Fun.(type) {
+	case *ast.Ident:
+		fn, ok := t.p.info.Uses[f].(*types.Func)
+		if !ok || fn.Pkg() != t.p.pkg {
+			fail(t.pos(x), "call of %s: only functions of the same package can be translated", f.Name)
+		}
+		g = t.p.translate(fn.Name(), t.pos(x))
+	case *ast.SelectorExpr:
+		sel := t.p.info.Selections[f]
+		if sel == nil || sel.Kind() != types.MethodVal {
+			fail(t.pos(x), "unsupported call")
+		}
+		fn := sel.Obj().(*types.Func)
+		if fn.Pkg() != t.p.pkg {
+			fail(t.pos(x), "call of method %s of another package", fn.FullName())
+		}
+		rt := sel.Recv()
+		if p, ok := rt.Underlying().(*types.Pointer); ok {
+			rt = p.Elem()
+		}
+		named, ok := rt.(*types.Named)
+		if !ok {
+			fail(t.pos(x), "method call on an unnamed type")
+		}
+		g = t.p.translate(named.Obj().Name()+"."+fn.Name(), t.pos(x))
+		if g.recvBasic != nil {
+			parts = append(parts, t.intExpr(f.X))
+		} else {
+			base, ok := t.resolvePath(f.X)
+			if !ok {
+				fail(t.pos(x), "method call on something that is not a field path of the receiver or of a parameter")
+			}
+			if len(sel.Index()) != 1 {
+				fail(t.pos(x), "call of a promoted method")
+			}
+			join := func(p *pathRef) *pathRef {
+				q := &pathRef{root: base.root, idx: append(append([]int{}, base.idx...), p.idx...), typ: p.typ, viaPtr: base.viaPtr || p.viaPtr}
+				if base.path == "" {
+					q.path = p.path
+				} else {
+					q.path = base.path + "." + p.path
+					if isPointer(base.typ) {
+						q.viaPtr = true
+					}
+				}
 
-func (t *tr) bind(goName string) string {
-	fresh++
-	n := fmt.Sprintf("%s_%d", strings.ReplaceAll(goName, ".", "_"), fresh)
-	t.env[goName] = n
+				return q
+			}
+			for _, p := range g.recvIn {
+				parts = append(parts, t.readPath(join(p), x))
+			}
+			// outputs are bound by the caller (callStmt); remember where they go
+			for _, p := range g.recvOut {
+				t.pendingOuts = append(t.pendingOuts, join(p))
+			}
+		}
+	default:
+		fail(t.pos(x), "unsupported call")
+	}
+	if len(x.Args) != len(g.params) || x.Ellipsis != token.NoPos {
+		fail(t.pos(x), "argument count mismatch")
+	}
+	if g.mutParam {
+		fail(t.pos(x), "%s assigns elements of a slice parameter: the effect on the caller's array is not rendered", g.coqName)
+	}
+	for i, a := range x.Args {
+		p := g.params[i]
+		if p.isFlat {
+			fail(t.pos(a), "struct-typed argument in a call is not supported")
+		}
+		if coqType(t.typeOf(a)) != coqType(p.typ) {
+			fail(t.pos(a), "argument kind mismatch")
+		}
+		parts = append(parts, t.expr(a))
+	}
+	s := ""
+	for _, p := range parts {
+		s += " " + p
+	}
+
+	return g, s
+}
+
+func (t *tr) writePath(p *pathRef, at ast.Node) string {
+	if p.root != t.recv || p.path == "" {
+		fail(t.pos(at), "assignment to something that is not a field of the pointer receiver")
+	}
+	if p.viaPtr {
+		fail(t.pos(at), "assignment through a pointer-typed field")
+	}
+	if t.recvIsValue {
+		fail(t.pos(at), "assignment to a field of a value receiver")
+	}
+	t.selected[p.root] = true
+	t.assigned[p.key()] = p
+	n := t.bind(p.root.Name() + "." + p.path)
+	t.paths[p.key()] = n
 
 	return n
 }
 
-func (t *tr) lhsName(e ast.Expr) string {
+// target returns a function that rebinds the assignment target e and yields its new Coq name.
+func (t *tr) target(e ast.Expr, define bool) func() string {
 	switch x := e.(type) {
+	case *ast.ParenExpr:
+		return t.target(x.X, define)
 	case *ast.Ident:
-		return x.Name
-	case *ast.SelectorExpr:
-		if id, ok := x.X.(*ast.Ident); ok && id.Name == t.recv {
-			return t.recv + "." + x.Sel.Name
+		if x.Name == "_" {
+			fail(t.pos(e), "blank assignment")
 		}
-	}
-	fail(t.fset.Position(e.Pos()), "unsupported assignment target")
+		var obj types.Object
+		if define {
+			obj = t.p.info.Defs[x]
+			if obj == nil { // redeclaration in a multi-assign: not supported here
+				fail(t.pos(e), "unsupported := target")
+			}
+		} else {
+			obj = t.p.info.Uses[x]
+			if _, ok := t.locals[obj]; !ok {
+				fail(t.pos(e), "assignment to %s, which is not a local variable or scalar parameter", x.Name)
+			}
+		}
 
-	return ""
+		return func() string {
+			n := t.bind(x.Name)
+			t.locals[obj] = n
+
+			return n
+		}
+	case *ast.SelectorExpr:
+		p, ok := t.resolvePath(x)
+		if !ok {
+			fail(t.pos(e), "unsupported assignment target")
+		}
+
+		return func() string { return t.writePath(p, e) }
+	}
+	fail(t.pos(e), "unsupported assignment target")
+
+	return nil
+}
+
+var binop = map[token.Token]token.Token{
+	token.ADD_ASSIGN: token.ADD, token.SUB_ASSIGN: token.SUB, token.MUL_ASSIGN: token.MUL, token.QUO_ASSIGN: token.QUO,
+	token.REM_ASSIGN: token.REM, token.AND_ASSIGN: token.AND, token.OR_ASSIGN: token.OR, token.XOR_ASSIGN: token.XOR,
+	token.AND_NOT_ASSIGN: token.AND_NOT, token.SHL_ASSIGN: token.SHL, token.SHR_ASSIGN: token.SHR,
+}
+
+func zero(ty types.Type) (string, bool) {
+	switch classify(ty) {
+	case kBool:
+		return "false", true
+	case kInt:
+		return "0", true
+	}
+
+	return "", false
+}
+
+func (t *tr) isLockCall(e ast.Expr) bool {
+	c, ok := e.(*ast.CallExpr)
+	if !ok || len(c.Args) != 0 {
+		return false
+	}
+	s, ok := c.Fun.(*ast.SelectorExpr)
+	if !ok {
+		return false
+	}
+	switch s.Sel.Name {
+	case "Lock", "Unlock", "RLock", "RUnlock":
+	default:
+		return false
+	}
+	sel := t.p.info.Selections[s]
+	if sel == nil || sel.Kind() != types.MethodVal {
+		return false
+	}
+
+	return isMutex(t.typeOf(s.X))
 }
 
 func returns(stmts []ast.Stmt) bool { // does the list end in a return on every path?
@@ -261,30 +1091,74 @@ func returns(stmts []ast.Stmt) bool { // does the list end in a return on every 
 	return false
 }
 
-func assigned(stmts []ast.Stmt, t *tr, out map[string]bool) {
-	for _, s := range stmts {
-		switch x := s.(type) {
-		case *ast.AssignStmt:
-			if x.Tok != token.DEFINE {
-				for _, l := range x.Lhs {
-					out[t.lhsName(l)] = true
-				}
-			}
-		case *ast.IncDecStmt:
-			out[t.lhsName(x.X)] = true
-		case *ast.IfStmt:
-			assigned(x.Body.List, t, out)
-			if x.Else != nil {
-				assigned([]ast.Stmt{x.Else}, t, out)
-			}
-		case *ast.BlockStmt:
-			assigned(x.List, t, out)
-		case *ast.SwitchStmt:
-			for _, c := range x.Body.List {
-				assigned(c.(*ast.CaseClause).Body, t, out)
-			}
+func copyLocals(m map[types.Object]string) map[types.Object]string {
+	c := make(map[types.Object]string, len(m))
+	for k, v := range m {
+		c[k] = v
+	}
+
+	return c
+}
+
+func copyPaths(m map[pathKey]string) map[pathKey]string {
+	c := make(map[pathKey]string, len(m))
+	for k, v := range m {
+		c[k] = v
+	}
+
+	return c
+}
+
+// let renders "let n := rhs in rest" (value) or the guarded continuation (safe).
+func (t *tr) let(pattern, rhs string, cs []string, rest func() string) string {
+	return t.guard(cs, "let "+pattern+" := "+rhs+" in\n  "+rest())
+}
+
+// callStmt: a call whose results (if any) go to the targets lhs, and whose assigned receiver
+// fields are rebound.
+func (t *tr) callStmt(x *ast.CallExpr, lhs []func() string, rest func() string) string {
+	g, args := t.call(x)
+	outs := t.pendingOuts
+	t.pendingOuts = nil
+	if g.nres != len(lhs) {
+		fail(t.pos(x), "call of %s: %d results for %d targets", g.coqName, g.nres, len(lhs))
+	}
+	if g.hasSafe {
+		t.addCond("(" + g.coqName + "_safe" + args + ")")
+	}
+	cs := t.takeConds()
+	var names []string
+	for _, l := range lhs {
+		names = append(names, l())
+	}
+	for _, p := range outs {
+		names = append(names, t.writePath(p, x))
+	}
+	switch len(names) {
+	case 0:
+		return t.guard(cs, rest())
+	case 1:
+		return t.let(names[0], "("+g.coqName+args+")", cs, rest)
+	}
+
+	return t.let("'("+strings.Join(names, ", ")+")", "("+g.coqName+args+")", cs, rest)
+}
+
+func isTranslatedCall(t *tr, e ast.Expr) (*ast.CallExpr, bool) {
+	c, ok := e.(*ast.CallExpr)
+	if !ok {
+		return nil, false
+	}
+	if tv, ok := t.p.info.Types[c.Fun]; ok && tv.IsType() {
+		return nil, false
+	}
+	if id, ok := c.Fun.(*ast.Ident); ok {
+		if _, isBuiltin := t.p.info.Uses[id].(*types.Builtin); isBuiltin {
+			return nil, false
 		}
 	}
+
+	return c, true
 }
 
 // block translates stmts followed by the continuation k (called with the env at that point).
@@ -296,54 +1170,190 @@ func (t *tr) block(stmts []ast.Stmt, ret func([]ast.Expr) string, k func() strin
 	switch s := stmts[0].(type) {
 	case *ast.ReturnStmt:
 		return ret(s.Results)
-	case *ast.AssignStmt:
-		if len(s.Lhs) != 1 || len(s.Rhs) != 1 {
-			fail(t.fset.Position(s.Pos()), "multi-assignment not supported")
+	case *ast.EmptyStmt:
+		return rest()
+	case *ast.DeferStmt:
+		if t.isLockCall(s.Call) {
+			return rest()
 		}
-		name := t.lhsName(s.Lhs[0])
-		var rhs string
-		switch s.Tok {
-		case token.DEFINE, token.ASSIGN:
-			rhs = t.expr(s.Rhs[0])
-		case token.ADD_ASSIGN, token.SUB_ASSIGN, token.MUL_ASSIGN:
-			op := map[token.Token]string{token.ADD_ASSIGN: "+", token.SUB_ASSIGN: "-", token.MUL_ASSIGN: "*"}[s.Tok]
-			rhs = wrap(t.info.TypeOf(s.Lhs[0]), "("+t.expr(s.Lhs[0])+" "+op+" "+t.expr(s.Rhs[0])+")")
-		default:
-			fail(t.fset.Position(s.Pos()), "unsupported assignment operator")
+		fail(t.pos(s), "defer of anything but a mutex unlock is not supported")
+	case *ast.ExprStmt:
+		if t.isLockCall(s.X) {
+			return rest()
 		}
-		n := t.bind(name)
+		if c, ok := isTranslatedCall(t, s.X); ok {
+			return t.callStmt(c, nil, rest)
+		}
+		fail(t.pos(s), "unsupported expression statement")
+	case *ast.DeclStmt:
+		gd, ok := s.Decl.(*ast.GenDecl)
+		if !ok || gd.Tok != token.VAR {
+			fail(t.pos(s), "unsupported declaration")
+		}
+		var todo []func(func() string) string
+		for _, sp := range gd.Specs {
+			vs := sp.(*ast.ValueSpec)
+			if len(vs.Values) != 0 && len(vs.Values) != len(vs.Names) {
+				fail(t.pos(s), "unsupported var declaration")
+			}
+			for i, n := range vs.Names {
+				i, n := i, n
+				todo = append(todo, func(rest func() string) string {
+					obj := t.p.info.Defs[n]
+					var rhs string
+					if len(vs.Values) != 0 {
+						if coqType(t.typeOf(vs.Values[i])) != coqType(obj.Type()) && !(classify(obj.Type()) == kInt && classify(t.typeOf(vs.Values[i])) == kInt) {
+							fail(t.pos(s), "initialiser kind mismatch")
+						}
+						rhs = t.expr(vs.Values[i])
+					} else {
+						z, ok := zero(obj.Type())
+						if !ok {
+							fail(t.pos(s), "zero value of %s is not supported", obj.Type())
+						}
+						rhs = z
+					}
+					cs := t.takeConds()
+					name := t.target(n, true)()
 
-		return "let " + n + " := " + rhs + " in\n  " + rest()
+					return t.let(name, rhs, cs, rest)
+				})
+			}
+		}
+		var chain func(i int) string
+		chain = func(i int) string {
+			if i == len(todo) {
+				return rest()
+			}
+
+			return todo[i](func() string { return chain(i + 1) })
+		}
+
+		return chain(0)
+	case *ast.AssignStmt:
+		_, lhsIsElem := s.Lhs[0].(*ast.IndexExpr)
+		if len(s.Rhs) == 1 && !(len(s.Lhs) == 1 && lhsIsElem) {
+			if c, ok := isTranslatedCall(t, s.Rhs[0]); ok && (s.Tok == token.DEFINE || s.Tok == token.ASSIGN) {
+				var lhs []func() string
+				for _, l := range s.Lhs {
+					lhs = append(lhs, t.target(l, s.Tok == token.DEFINE))
+				}
+
+				return t.callStmt(c, lhs, rest)
+			}
+		}
+		if len(s.Lhs) != 1 || len(s.Rhs) != 1 {
+			fail(t.pos(s), "multi-assignment not supported")
+		}
+		// element assignment s[i] (op)= v
+		if ix, ok := s.Lhs[0].(*ast.IndexExpr); ok {
+			if classify(t.typeOf(ix.X)) != kList {
+				fail(t.pos(s), "index assignment to a non-integer slice/array")
+			}
+			if _, isArr := t.typeOf(ix.X).Underlying().(*types.Array); isArr {
+				// arrays have value semantics in Go as well; nothing special
+				_ = isArr
+			}
+			l := t.expr(ix.X)
+			i := t.intExpr(ix.Index)
+			t.boundsCond(l, i, ix.Index)
+			var v string
+			switch {
+			case s.Tok == token.ASSIGN:
+				v = t.intExpr(s.Rhs[0])
+			case binop[s.Tok] == token.SHL || binop[s.Tok] == token.SHR:
+				v = t.shift(binop[s.Tok], t.typeOf(ix), "(g_idx "+l+" "+i+")", s.Rhs[0])
+			case binop[s.Tok] != token.ILLEGAL:
+				v = t.arith(binop[s.Tok], t.typeOf(ix), "(g_idx "+l+" "+i+")", t.intExpr(s.Rhs[0]), s.Rhs[0], s)
+			default:
+				fail(t.pos(s), "unsupported assignment operator")
+			}
+			cs := t.takeConds()
+			if id, ok := ix.X.(*ast.Ident); ok {
+				for _, fl := range t.fd.Type.Params.List {
+					for _, n := range fl.Names {
+						if t.p.info.Defs[n] == t.p.info.Uses[id] {
+							t.mutatesParm = true
+						}
+					}
+				}
+			}
+			name := t.target(ix.X, false)()
+
+			return t.let(name, "(g_upd "+l+" "+i+" "+v+")", cs, rest)
+		}
+		var rhs string
+		lty := t.typeOf(s.Lhs[0])
+		switch {
+		case s.Tok == token.DEFINE || s.Tok == token.ASSIGN:
+			// x = append(x, v)
+			if c, ok := s.Rhs[0].(*ast.CallExpr); ok {
+				if id, ok := c.Fun.(*ast.Ident); ok && id.Name == "append" {
+					if _, isBuiltin := t.p.info.Uses[id].(*types.Builtin); isBuiltin {
+						if s.Tok != token.ASSIGN || len(c.Args) != 2 || c.Ellipsis != token.NoPos || classify(lty) != kList ||
+							types.ExprString(c.Args[0]) != types.ExprString(s.Lhs[0]) {
+							fail(t.pos(s), "only x = append(x, v) on an integer slice is supported")
+						}
+						rhs = "(" + t.expr(c.Args[0]) + " ++ (" + t.intExpr(c.Args[1]) + " :: nil))"
+
+						break
+					}
+				}
+			}
+			rty := t.typeOf(s.Rhs[0])
+			if coqType(lty) != coqType(rty) && !(classify(lty) == kInt && classify(rty) == kInt) {
+				fail(t.pos(s), "assignment between different kinds (%s := %s)", lty, rty)
+			}
+			rhs = t.expr(s.Rhs[0])
+		case binop[s.Tok] == token.SHL || binop[s.Tok] == token.SHR:
+			rhs = t.shift(binop[s.Tok], lty, t.intExpr(s.Lhs[0]), s.Rhs[0])
+		case binop[s.Tok] != token.ILLEGAL:
+			rhs = t.arith(binop[s.Tok], lty, t.intExpr(s.Lhs[0]), t.intExpr(s.Rhs[0]), s.Rhs[0], s)
+		default:
+			fail(t.pos(s), "unsupported assignment operator")
+		}
+		cs := t.takeConds()
+		n := t.target(s.Lhs[0], s.Tok == token.DEFINE)()
+
+		return t.let(n, rhs, cs, rest)
 	case *ast.IncDecStmt:
-		name := t.lhsName(s.X)
 		op := "+"
 		if s.Tok == token.DEC {
 			op = "-"
 		}
-		rhs := wrap(t.info.TypeOf(s.X), "("+t.expr(s.X)+" "+op+" 1)")
-		n := t.bind(name)
+		rhs := wrap(t.typeOf(s.X), "("+t.intExpr(s.X)+" "+op+" 1)")
+		cs := t.takeConds()
+		n := t.target(s.X, false)()
 
-		return "let " + n + " := " + rhs + " in\n  " + rest()
+		return t.let(n, rhs, cs, rest)
 	case *ast.BlockStmt:
 		return t.block(append(append([]ast.Stmt{}, s.List...), stmts[1:]...), ret, k)
 	case *ast.IfStmt:
 		if s.Init != nil {
-			fail(t.fset.Position(s.Pos()), "if with init statement not supported")
+			c := *s
+			c.Init = nil
+
+			return t.block(append([]ast.Stmt{s.Init, &c}, stmts[1:]...), ret, k)
 		}
 		var elseList []ast.Stmt
 		if s.Else != nil {
 			elseList = []ast.Stmt{s.Else}
 		}
+		cond := t.boolExpr(s.Cond)
+		cs := t.takeConds()
 
-		return t.branch(t.expr(s.Cond), s.Body.List, elseList, stmts[1:], ret, k)
+		return t.guard(cs, t.branch(cond, s.Body.List, elseList, stmts[1:], ret, k))
+	case *ast.ForStmt, *ast.RangeStmt:
+		return t.loop(s, stmts[1:], ret, k)
 	case *ast.SwitchStmt:
-		if s.Init != nil || s.Tag == nil {
-			fail(t.fset.Position(s.Pos()), "only switch <expr> is supported")
+		if s.Init != nil {
+			fail(t.pos(s), "switch with init statement is not supported")
 		}
-		tag := t.expr(s.Tag)
-		_, _, isInt := bits(t.info.TypeOf(s.Tag))
-		if !isInt {
-			fail(t.fset.Position(s.Pos()), "switch on non-integer")
+		tag := ""
+		var cs []string
+		if s.Tag != nil {
+			tag = t.intExpr(s.Tag)
+			cs = t.takeConds()
 		}
 		// desugar into an if chain, default last
 		var def []ast.Stmt
@@ -354,6 +1364,11 @@ func (t *tr) block(stmts []ast.Stmt, ret func([]ast.Expr) string, k func() strin
 		var arms []arm
 		for _, c := range s.Body.List {
 			cc := c.(*ast.CaseClause)
+			for _, b := range cc.Body {
+				if _, isBranch := b.(*ast.BranchStmt); isBranch {
+					fail(t.pos(b), "break/fallthrough in a switch is not supported")
+				}
+			}
 			if cc.List == nil {
 				def = cc.Body
 
@@ -361,169 +1376,400 @@ func (t *tr) block(stmts []ast.Stmt, ret func([]ast.Expr) string, k func() strin
 			}
 			conds := make([]string, len(cc.List))
 			for i, e := range cc.List {
-				conds[i] = "(" + tag + " =? " + t.expr(e) + ")"
+				if s.Tag != nil {
+					conds[i] = "(" + tag + " =? " + t.intExpr(e) + ")"
+				} else {
+					conds[i] = t.boolExpr(e)
+				}
+				if len(t.conds) > 0 {
+					fail(t.pos(e), "case expression that can panic is not supported")
+				}
 			}
 			arms = append(arms, arm{strings.Join(conds, " || "), cc.Body})
 		}
-		var build func(i int) []ast.Stmt
-		_ = build
-		// translate recursively without building AST: nested branch calls
 		var chain func(i int, after []ast.Stmt) string
 		chain = func(i int, after []ast.Stmt) string {
 			if i == len(arms) {
 				return t.block(append(append([]ast.Stmt{}, def...), after...), ret, k)
 			}
-			saved := copyEnv(t.env)
+			savedL, savedP := copyLocals(t.locals), copyPaths(t.paths)
 			thenS := t.block(append(append([]ast.Stmt{}, arms[i].body...), after...), ret, k)
-			t.env = copyEnv(saved)
+			t.locals, t.paths = copyLocals(savedL), copyPaths(savedP)
 			elseS := chain(i+1, after)
-			t.env = saved
+			t.locals, t.paths = savedL, savedP
 
 			return "(if " + arms[i].cond + " then " + thenS + "\n  else " + elseS + ")"
 		}
 		// a switch whose arms assign (not return) duplicates the continuation into each arm: fine for the small functions targeted
 
-		return chain(0, stmts[1:])
-	case *ast.DeclStmt, *ast.ExprStmt, *ast.EmptyStmt:
-		fail(t.fset.Position(s.Pos()), "unsupported statement %T", s)
+		return t.guard(cs, chain(0, stmts[1:]))
 	default:
-		fail(t.fset.Position(s.Pos()), "unsupported statement %T", s)
+		fail(t.pos(s), "unsupported statement %T", s)
 	}
 
 	return ""
 }
 
-func copyEnv(m map[string]string) map[string]string {
-	c := make(map[string]string, len(m))
-	for k, v := range m {
-		c[k] = v
-	}
-
-	return c
-}
-
 // branch: if cond {a} else {b}; after...   The continuation is duplicated into both arms
 // (the functions targeted are tiny), which keeps the translation purely structural.
 func (t *tr) branch(cond string, a, b, after []ast.Stmt, ret func([]ast.Expr) string, k func() string) string {
-	saved := copyEnv(t.env)
+	savedL, savedP := copyLocals(t.locals), copyPaths(t.paths)
 	thenS := t.block(append(append([]ast.Stmt{}, a...), after...), ret, k)
-	t.env = copyEnv(saved)
+	t.locals, t.paths = copyLocals(savedL), copyPaths(savedP)
 	elseS := t.block(append(append([]ast.Stmt{}, b...), after...), ret, k)
-	t.env = saved
+	t.locals, t.paths = savedL, savedP
 
 	return "(if " + cond + " then " + thenS + "\n  else " + elseS + ")"
+}
+
+// ---------------------------------------------------------------------------------------------
+// driver for one function
+
+func (p *pkgInfo) translate(want string, from token.Position) *gen {
+	if g, ok := p.gens[want]; ok {
+		if g.busy {
+			fail(from, "recursive call of %s", want)
+		}
+
+		return g
+	}
+	fd, ok := p.decls[want]
+	if !ok {
+		fail(from, "function %s not found in %s", want, p.dir)
+	}
+	g := &gen{coqName: "g_" + p.name + "_" + strings.ReplaceAll(want, ".", "_"), busy: true}
+	p.gens[want] = g
+	fpos := p.fset.Position(fd.Pos())
+	if fd.Type.TypeParams != nil {
+		fail(fpos, "generic functions are not supported")
+	}
+
+	// results
+	var resTypes []types.Type
+	var resStruct *types.Struct
+	if fd.Type.Results != nil {
+		for _, fl := range fd.Type.Results.List {
+			if len(fl.Names) != 0 {
+				fail(fpos, "named results are not supported")
+			}
+			resTypes = append(resTypes, p.info.TypeOf(fl.Type))
+		}
+	}
+	g.nres = len(resTypes)
+	if len(resTypes) == 1 {
+		if st, ok := resTypes[0].Underlying().(*types.Struct); ok {
+			resStruct = st
+			g.nres = st.NumFields()
+		}
+	}
+	for _, rt := range resTypes {
+		if resStruct == nil && classify(rt) == kStruct && !isPointer(rt) {
+			fail(fpos, "struct result next to other results is not supported")
+		}
+	}
+	if !returns(fd.Body.List) && fd.Type.Results != nil {
+		fail(fpos, "function may fall off its end")
+	}
+
+	run := func(safe bool, outs []*pathRef) (*tr, string) {
+		t := &tr{p: p, fd: fd, locals: map[types.Object]string{}, paths: map[pathKey]string{}, inputs: map[pathKey]*pathRef{},
+			assigned: map[pathKey]*pathRef{}, selected: map[types.Object]bool{}, whole: map[types.Object]bool{}, outs: outs, safe: safe}
+		g.recvBasic = nil
+		g.params = nil
+		if fd.Recv != nil && len(fd.Recv.List[0].Names) == 1 && fd.Recv.List[0].Names[0].Name != "_" {
+			id := fd.Recv.List[0].Names[0]
+			obj := p.info.Defs[id]
+			switch classify(obj.Type()) {
+			case kStruct:
+				t.recv = obj
+				t.recvIsValue = !isPointer(obj.Type())
+			case kInt, kBool:
+				t.locals[obj] = coqIdent(id.Name)
+				g.recvBasic = &genParam{obj: obj, name: coqIdent(id.Name), typ: obj.Type()}
+			default:
+				fail(fpos, "receiver of type %s is not supported", obj.Type())
+			}
+		} else if fd.Recv != nil {
+			rt := p.info.TypeOf(fd.Recv.List[0].Type)
+			if k := classify(rt); k == kInt || k == kBool {
+				g.recvBasic = &genParam{name: "_", typ: rt}
+			}
+		}
+		n := 0
+		for _, fl := range fd.Type.Params.List {
+			ty := p.info.TypeOf(fl.Type)
+			if _, variadic := fl.Type.(*ast.Ellipsis); variadic {
+				fail(fpos, "variadic parameters are not supported")
+			}
+			names := fl.Names
+			if len(names) == 0 {
+				names = []*ast.Ident{nil}
+			}
+			for _, id := range names {
+				n++
+				gp := &genParam{typ: ty}
+				if id == nil || id.Name == "_" {
+					gp.name = fmt.Sprintf("unused%d_", n)
+				} else {
+					gp.obj = p.info.Defs[id]
+					gp.name = coqIdent(id.Name)
+					if classify(ty) != kStruct {
+						t.locals[gp.obj] = gp.name
+					}
+				}
+				g.params = append(g.params, gp)
+			}
+		}
+		ret := func(rs []ast.Expr) string {
+			var parts []string
+			if resStruct != nil {
+				if len(rs) != 1 {
+					fail(fpos, "bare return")
+				}
+				cl, ok := rs[0].(*ast.CompositeLit)
+				if !ok {
+					fail(t.pos(rs[0]), "a struct result must be returned as a composite literal")
+				}
+				vals := make([]string, resStruct.NumFields())
+				for i, el := range cl.Elts {
+					fi := i
+					var ve ast.Expr = el
+					if kv, ok := el.(*ast.KeyValueExpr); ok {
+						fi = -1
+						for j := 0; j < resStruct.NumFields(); j++ {
+							if resStruct.Field(j).Name() == kv.Key.(*ast.Ident).Name {
+								fi = j
+							}
+						}
+						ve = kv.Value
+					}
+					if fi < 0 || fi >= len(vals) {
+						fail(t.pos(el), "unknown field in composite literal")
+					}
+					if coqType(resStruct.Field(fi).Type()) != coqType(t.typeOf(ve)) || classify(t.typeOf(ve)) == kStruct {
+						fail(t.pos(el), "field kind mismatch in composite literal")
+					}
+					vals[fi] = t.expr(ve)
+				}
+				for j, v := range vals {
+					if v == "" {
+						z, ok := zero(resStruct.Field(j).Type())
+						if !ok {
+							fail(t.pos(cl), "zero value of field %s is not supported", resStruct.Field(j).Name())
+						}
+						vals[j] = z
+					}
+				}
+				parts = vals
+			} else {
+				if len(rs) != len(resTypes) {
+					fail(fpos, "bare return / result count mismatch")
+				}
+				for i, r := range rs {
+					if id, ok := r.(*ast.Ident); ok {
+						if _, isNil := t.p.info.Uses[id].(*types.Nil); isNil {
+							if _, isSlice := resTypes[i].Underlying().(*types.Slice); isSlice && classify(resTypes[i]) == kList {
+								parts = append(parts, "nil") // the nil slice: length 0
+
+								continue
+							}
+							fail(t.pos(r), "nil result of type %s is not supported", resTypes[i])
+						}
+					}
+					if coqType(t.typeOf(r)) != coqType(resTypes[i]) && !(classify(resTypes[i]) == kInt && classify(t.typeOf(r)) == kInt) {
+						fail(t.pos(r), "result kind mismatch")
+					}
+					parts = append(parts, t.expr(r))
+				}
+			}
+			cs := t.takeConds()
+			if t.safe {
+				return conj(cs)
+			}
+			for _, o := range t.outs {
+				parts = append(parts, t.readPath(o, fd))
+			}
+			switch len(parts) {
+			case 0:
+				return "tt"
+			case 1:
+				return parts[0]
+			}
+
+			return "(" + strings.Join(parts, ", ") + ")"
+		}
+		body := t.block(fd.Body.List, ret, func() string { return ret(nil) })
+
+		return t, body
+	}
+
+	t1, _ := run(false, nil)
+	outs := sortPaths(t1.assigned)
+	t2, body := run(false, outs)
+	if len(t2.assigned) != len(t1.assigned) {
+		fail(fpos, "internal: passes disagree")
+	}
+	g.mutParam = t2.mutatesParm
+	// no path may be a prefix of another one
+	all := map[pathKey]*pathRef{}
+	for k, v := range t2.inputs {
+		all[k] = v
+	}
+	for k, v := range t2.assigned {
+		all[k] = v
+	}
+	for a := range all {
+		for b := range all {
+			if a.root == b.root && a != b && strings.HasPrefix(b.path, a.path+".") {
+				fail(fpos, "field %s is used both as a whole and by sub-field", a.path)
+			}
+		}
+	}
+	ins := sortPaths(t2.inputs)
+	var params []string
+	tps := map[string]bool{}
+	addParam := func(name string, ty types.Type) {
+		ct := coqType(ty)
+		if strings.HasPrefix(ct, "T_") {
+			tps[ct] = true
+		}
+		params = append(params, "("+name+" : "+ct+")")
+	}
+	used := map[string]bool{}
+	if g.recvBasic != nil {
+		addParam(g.recvBasic.name, g.recvBasic.typ)
+	}
+	g.recvIn = nil
+	for _, in := range ins {
+		if t2.recv != nil && in.root == t2.recv {
+			g.recvIn = append(g.recvIn, &pathRef{path: in.path, idx: in.idx, typ: in.typ, viaPtr: in.viaPtr})
+			addParam(initialName(in), in.typ)
+		}
+	}
+	for _, o := range outs {
+		g.recvOut = append(g.recvOut, &pathRef{path: o.path, idx: o.idx, typ: o.typ, viaPtr: o.viaPtr})
+	}
+	for _, gp := range g.params {
+		if gp.obj != nil && classify(gp.typ) == kStruct && t2.selected[gp.obj] {
+			gp.isFlat = true
+			for _, in := range ins {
+				if in.root == gp.obj {
+					gp.flat = append(gp.flat, in)
+					addParam(initialName(in), in.typ)
+				}
+			}
+
+			continue
+		}
+		addParam(gp.name, gp.typ)
+	}
+	for _, ps := range params {
+		nm := strings.Fields(strings.Trim(ps, "()"))[0]
+		if used[nm] && nm != "_" {
+			fail(fpos, "parameter name clash: %s", nm)
+		}
+		used[nm] = true
+	}
+	var tpl []string
+	for k := range tps {
+		tpl = append(tpl, k)
+	}
+	sort.Strings(tpl)
+	header := ""
+	for _, k := range tpl {
+		header += " {" + k + " : Type}"
+	}
+	for _, ps := range params {
+		header += " " + ps
+	}
+	fmt.Fprintf(p.out, "(* %s: %s *)\nDefinition %s%s :=\n  %s.\n\n", p.dir, want, g.coqName, header, body)
+
+	t3, sbody := run(true, outs)
+	for k := range t3.inputs {
+		if _, ok := t2.inputs[k]; !ok {
+			fail(fpos, "internal: safety condition reads a field the value does not")
+		}
+	}
+	if t3.anyConds {
+		g.hasSafe = true
+		fmt.Fprintf(p.out, "(* %s: %s does not panic (index range, division by zero, shift count) *)\nDefinition %s_safe%s :=\n  %s.\n\n",
+			p.dir, want, g.coqName, header, sbody)
+	}
+	g.busy = false
+
+	return g
+}
+
+// The static prelude (g_idx, g_upd, g_len, g_take, g_zeros, g_while, g_while_safe) is the
+// hand-written, committed file coq/Base/GoPrelude.v; generated files contain translated functions only.
+const prelude = `(* GENERATED by tools/go2coq -prop %s from the Go source on every run - do not edit. *)
+From Coq Require Import ZArith Bool List.
+From IV Require Import Base.GoPrelude.
+Open Scope Z_scope.
+Open Scope bool_scope.
+
+`
+
+// propUnits: what each property's ties need (callees are added on demand).  One generated file
+// per property, so that a change to a Go function can only break the obligations of the
+// properties that use it; a function needed by two properties is emitted into both files.
+var propUnits = map[string][]unit{
+	"C03": {{"pkg/nack", []string{"receiveLog.setReceived", "receiveLog.delReceived", "receiveLog.getReceived", "receiveLog.get",
+		"receiveLog.fixLastConsecutive", "receiveLog.add", "receiveLog.missingSeqNumbers"}}},
+	"C05": {{"pkg/twcc", []string{"chunk.canAdd", "chunk.add", "feedback.setBase", "packetArrivalTimeMap.Clamp",
+		"packetArrivalTimeMap.setNotReceived", "packetArrivalTimeMap.reallocate", "packetArrivalTimeMap.get", "packetArrivalTimeMap.HasReceived"}}},
+	"C06": {{"pkg/report", []string{"receiverStream.setReceived", "receiverStream.delReceived", "receiverStream.getReceived",
+		"receiverStream.processSenderReport"}}},
+	"C07": {{"pkg/report", []string{"senderStream.processRTP"}}},
+	"C12": {{"pkg/nack", []string{"receiveLog.setReceived", "receiveLog.delReceived"}},
+		{"pkg/report", []string{"receiverStream.setReceived", "receiverStream.delReceived"}}},
+	"C14": {{"pkg/flexfec/util", []string{"BitArray.SetBit", "BitArray.GetBit", "BitArray.Reset"}},
+		{"pkg/flexfec", []string{"extractMask1", "extractMask2", "extractMask3_03", "decodeMask"}}},
+	"C16": {{"pkg/gcc", []string{"clampInt", "state.transition", "lossBasedBandwidthEstimator.getEstimate"}}},
+	"C18": {{"pkg/jitterbuffer", []string{"PriorityQueue.Length", "JitterBuffer.updateStats", "JitterBuffer.SetPlayoutHead", "JitterBuffer.PlayoutHead"}}},
+	"C20": {{"internal/sequencenumber", []string{"isNewer", "Unwrapper.Unwrap"}}},
 }
 
 func main() {
 	repo := flag.String("repo", "/repo", "repository root")
 	out := flag.String("out", "", "output .v file")
+	prop := flag.String("prop", "", "property id (C03, C05, ...): emit only the functions its ties need")
+	only := flag.String("units", "", "testing: translate these instead of a property's list, e.g. pkg/x=F,T.M;pkg/y=G")
 	flag.Parse()
-	units := []unit{
-		{"internal/sequencenumber", []string{"isNewer", "Unwrapper.Unwrap"}},
-		{"pkg/gcc", []string{"clampInt", "state.transition"}},
+	units, known := propUnits[*prop]
+	if !known && *only == "" {
+		var ids []string
+		for id := range propUnits {
+			ids = append(ids, id)
+		}
+		sort.Strings(ids)
+		fmt.Fprintf(os.Stderr, "go2coq: -prop is required (there is no global output file any more); one of %s\n", strings.Join(ids, " "))
+		os.Exit(2)
+	}
+	label := *prop
+	if *only != "" {
+		label = "(testing: -units)"
+	}
+	if *only != "" {
+		units = nil
+		for _, u := range strings.Split(*only, ";") {
+			dir, fs, ok := strings.Cut(u, "=")
+			if !ok {
+				fail(token.Position{Filename: u}, "bad -units entry")
+			}
+			units = append(units, unit{dir, strings.Split(fs, ",")})
+		}
+	}
+	// the source importer resolves imports with `go list`, which must run inside the module
+	if abs, err := filepath.Abs(*repo); err == nil {
+		build.Default.Dir = abs
 	}
 	var sb strings.Builder
-	sb.WriteString("(* GENERATED by tools/go2coq from the Go source on every run - do not edit. *)\n")
-	sb.WriteString("From Coq Require Import ZArith Bool.\nOpen Scope Z_scope.\nOpen Scope bool_scope.\n\n")
+	fmt.Fprintf(&sb, prelude, label)
 	for _, u := range units {
-		fset := token.NewFileSet()
-		pkgs, err := parser.ParseDir(fset, filepath.Join(*repo, u.dir), func(fi os.FileInfo) bool {
-			return !strings.HasSuffix(fi.Name(), "_test.go") && !strings.HasSuffix(fi.Name(), "_verif.go")
-		}, 0)
-		if err != nil {
-			fail(token.Position{Filename: u.dir}, "%v", err)
-		}
-		for _, p := range pkgs {
-			var files []*ast.File
-			for _, f := range p.Files {
-				files = append(files, f)
-			}
-			info := &types.Info{Types: map[ast.Expr]types.TypeAndValue{}, Defs: map[*ast.Ident]types.Object{}, Uses: map[*ast.Ident]types.Object{}}
-			conf := types.Config{Importer: importer.ForCompiler(fset, "source", nil), Error: func(error) {}}
-			pkg, _ := conf.Check(u.dir, fset, files, info)
-			pfx := "g_" + p.Name + "_"
-			for _, want := range u.funcs {
-				found := false
-				for _, f := range files {
-					for _, d := range f.Decls {
-						fd, ok := d.(*ast.FuncDecl)
-						if !ok || fd.Body == nil {
-							continue
-						}
-						name := fd.Name.Name
-						recvT := ""
-						if fd.Recv != nil {
-							switch rt := fd.Recv.List[0].Type.(type) {
-							case *ast.StarExpr:
-								recvT = rt.X.(*ast.Ident).Name
-							case *ast.Ident:
-								recvT = rt.Name
-							}
-							name = recvT + "." + name
-						}
-						if name != want {
-							continue
-						}
-						found = true
-						t := &tr{fset: fset, info: info, pkg: pkg, pfx: pfx, env: map[string]string{}}
-						var params []string
-						var fieldNames []string
-						if fd.Recv != nil {
-							t.recv = fd.Recv.List[0].Names[0].Name
-							obj := pkg.Scope().Lookup(recvT)
-							if st, ok := obj.Type().Underlying().(*types.Struct); ok {
-								for i := 0; i < st.NumFields(); i++ {
-									fn := st.Field(i).Name()
-									fieldNames = append(fieldNames, fn)
-									n := t.recv + "_" + fn
-									t.env[t.recv+"."+fn] = n
-									ty := "Z"
-									if b, ok := st.Field(i).Type().Underlying().(*types.Basic); ok && b.Kind() == types.Bool {
-										ty = "bool"
-									}
-									params = append(params, "("+n+" : "+ty+")")
-								}
-							} else { // value receiver of a basic type (e.g. `state`)
-								t.env[t.recv] = t.recv
-								params = append(params, "("+t.recv+" : Z)")
-							}
-						}
-						for _, fl := range fd.Type.Params.List {
-							for _, n := range fl.Names {
-								t.env[n.Name] = n.Name
-								ty := "Z"
-								if b, ok := info.TypeOf(fl.Type).Underlying().(*types.Basic); ok && b.Kind() == types.Bool {
-									ty = "bool"
-								}
-								params = append(params, "("+n.Name+" : "+ty+")")
-							}
-						}
-						ret := func(rs []ast.Expr) string {
-							parts := make([]string, 0, len(rs)+len(fieldNames))
-							for _, r := range rs {
-								parts = append(parts, t.expr(r))
-							}
-							for _, fn := range fieldNames {
-								parts = append(parts, t.env[t.recv+"."+fn])
-							}
-							if len(parts) == 1 {
-								return parts[0]
-							}
-
-							return "(" + strings.Join(parts, ", ") + ")"
-						}
-						if !returns(fd.Body.List) && fd.Type.Results != nil {
-							fail(fset.Position(fd.Pos()), "function may fall off its end")
-						}
-						body := t.block(fd.Body.List, ret, func() string { return ret(nil) })
-						fmt.Fprintf(&sb, "(* %s: %s *)\nDefinition %s%s %s :=\n  %s.\n\n", u.dir, want, pfx,
-							strings.ReplaceAll(want, ".", "_"), strings.Join(params, " "), body)
-					}
-				}
-				if !found {
-					fail(token.Position{Filename: u.dir}, "function %s not found", want)
-				}
-			}
+		p := loadPkg(*repo, u.dir, &sb)
+		for _, want := range u.funcs {
+			p.translate(want, token.Position{Filename: u.dir})
 		}
 	}
 	if *out == "" {
